@@ -37,6 +37,27 @@ package processor
 //@   safe
 //@ end
 
+// ---- head <eval-expr>: rows are kept while the expression holds, and the
+// limit counts rows over the whole stream, not per batch: after any batch
+// numRecordsSent <= MaxRows, it grows by exactly the rows kept from this
+// batch, the kept rows are a prefix of the batch, and reaching the limit ends
+// the stream.
+//@ func (*headProcessor).processHeadExpr
+//@   mode int
+//@   props C06
+//@   requires p != nil && p.options != nil && p.options.BoolExpr != nil && io.EOF != nil
+//@   requires implies(iqr != nil, p.numRecordsSent <= p.options.MaxRows && ghost(iqr, "iqrN") >= 0)
+//@   loop 1:
+//@     invariant row >= 0 && row <= ghost(iqr, "iqrN") && p.numRecordsSent == old(p.numRecordsSent) + uint64(row) && p.numRecordsSent <= p.options.MaxRows
+//@     invariant p.options == old(p.options) && p.options.MaxRows == old(p.options.MaxRows) && ghost(iqr, "iqrN") == old(ghost(iqr, "iqrN")) && ghost(iqr, "iqrStart") == old(ghost(iqr, "iqrStart"))
+//@   ensures [limit-over-the-whole-stream] implies(iqr != nil && result0 != nil, p.numRecordsSent <= old(p.options.MaxRows))
+//@   ensures [count] implies(iqr != nil && result0 != nil, p.numRecordsSent == old(p.numRecordsSent) + uint64(ghost(iqr, "iqrN")))
+//@   ensures [same-object] implies(iqr != nil && result0 != nil, result0 == iqr)
+//@   ensures [prefix-kept-start] implies(iqr != nil && result0 != nil, ghost(iqr, "iqrStart") == old(ghost(iqr, "iqrStart")))
+//@   ensures [prefix-kept-len] implies(iqr != nil && result0 != nil, ghost(iqr, "iqrN") <= old(ghost(iqr, "iqrN")))
+//@   ensures [limit-ends-the-stream] implies(iqr != nil && result0 != nil && p.numRecordsSent == old(p.options.MaxRows), result1 == io.EOF && p.options.Done)
+//@ end
+
 // ---- tail: finalIqr is always the last min(seen, TailRows) records of the stream
 // view invariant of the accumulated result F = p.finalIqr, with T = TailRows:
 //   F.N <= T and (F.Start == 0 or F.N == T)   i.e.  F = [max(0, seen-T), seen)
@@ -95,4 +116,52 @@ package processor
 //@   props C05
 //@   site store s.sortIndexState.didEarlyExit #1:
 //@     assert [early-exit-only-for-single-key-sorts] !requiresFullLine && requiresFullLine == (len(s.sortExpr.SortEles) > 1)
+//@ end
+
+// C04 (time buckets partition the range): with an explicit aligntime the
+// bucket of an event is the unique aligned span that contains the event's
+// timestamp: bucket <= ts < bucket + span and bucket = aligntime + k*span,
+// also for events that are earlier than aligntime (k < 0).  The timestamp is
+// the value of utcTime.UnixMilli() (recorded in a ghost at that call).
+//@ ghostdecl binTs int64
+//@ func getTimeBucketWithAlign
+//@   props C04
+//@   mode real
+//@   note float64 arithmetic is treated as exact real arithmetic here (all values are integers below 2^53 and a quotient of such integers cannot be rounded across an integer); IEEE bit-exact queries with fp.div time out on all three solvers
+//@   ghostinit ghost(0, "binTs") == 0
+//@   requires alignTime != nil && *alignTime <= 4398046511104
+//@   requires numIntervals >= 1 && numIntervals <= 100000 && numIntervals == float64(int64(numIntervals))
+//@   requires durationScale >= 1000000 && durationScale <= 3600000000000 && durationScale % 1000000 == 0
+//@   site callret utcTime.UnixMilli #1:
+//@     assume result >= 0 && result <= 4398046511104
+//@     ghostset ghost(0, "binTs") = result
+//@   ensures [bucket-contains-timestamp] result == 0 || (int64(result) <= ghost(0, "binTs") && ghost(0, "binTs") < int64(result) + binSpanMs(numIntervals, durationScale))
+//@   ensures [bucket-is-the-aligned-span-of-the-timestamp] float64(result) == fmax0(float64(*alignTime) + floor((float64(ghost(0, "binTs")) - float64(*alignTime)) / float64(binSpanMs(numIntervals, durationScale))) * float64(binSpanMs(numIntervals, durationScale)))
+//@ end
+//@ spec fmax0(x float64) float64 = ite(x < 0, float64(0), x)
+//@ spec binSpanMs(n float64, scale time.Duration) int64 = (int64(n) * int64(scale)) / 1000000
+
+// ---- multi-key sort (C05): compareValues is the order of one sort key.
+// less()/lessDirectRead move on to the next key only on EQUAL, so two records
+// that both lack the key must compare EQUAL (else later keys are ignored),
+// missing values go last in both directions, different ranks order by rank,
+// and within a rank the result is the value order (reversed when descending).
+// rankOf / floatOf / strOf are uninterpreted functions of the value.
+//@ func getRank
+//@   assumed
+//@   pure
+//@   ensures result == uf("rankOf", dTypeRank, CValEnc, op) && result >= RANK_NUMERIC && result <= RANK_OTHER
+//@ end
+
+//@ spec dirOf(c compare, asc bool) compare = ite(asc, c, ite(c == LESS, GREATER, ite(c == GREATER, LESS, c)))
+//@ spec typedKey(v *sutils.CValueEnclosure, op string) bool = uf("rankOf", dTypeRank, v, op) >= RANK_NUMERIC && uf("rankOf", dTypeRank, v, op) <= RANK_OTHER && implies(uf("rankOf", dTypeRank, v, op) == RANK_NUMERIC, uf("hasFloat", bool, v) && !isNaN(uf("floatOf", float64, v))) && implies(uf("rankOf", dTypeRank, v, op) == RANK_STRING, uf("hasStr", bool, v))
+//@ func compareValues
+//@   props C05
+//@   pure
+//@   ensures [three-valued] result == LESS || result == EQUAL || result == GREATER
+//@   ensures [both-missing-equal] implies(uf("rankOf", dTypeRank, valueA, op) == RANK_OTHER && uf("rankOf", dTypeRank, valueB, op) == RANK_OTHER, result == EQUAL)
+//@   ensures [missing-last] implies(uf("rankOf", dTypeRank, valueA, op) == RANK_OTHER && uf("rankOf", dTypeRank, valueB, op) != RANK_OTHER, result == GREATER) && implies(uf("rankOf", dTypeRank, valueA, op) != RANK_OTHER && uf("rankOf", dTypeRank, valueB, op) == RANK_OTHER, result == LESS)
+//@   ensures [rank-order] implies(uf("rankOf", dTypeRank, valueB, op) != RANK_OTHER && uf("rankOf", dTypeRank, valueA, op) < uf("rankOf", dTypeRank, valueB, op), result == dirOf(LESS, asc)) && implies(uf("rankOf", dTypeRank, valueA, op) != RANK_OTHER && uf("rankOf", dTypeRank, valueA, op) > uf("rankOf", dTypeRank, valueB, op), result == dirOf(GREATER, asc))
+//@   ensures [numeric-order] implies(uf("rankOf", dTypeRank, valueA, op) == RANK_NUMERIC && uf("rankOf", dTypeRank, valueB, op) == RANK_NUMERIC && typedKey(valueA, op) && typedKey(valueB, op), (result == EQUAL) == (uf("floatOf", float64, valueA) == uf("floatOf", float64, valueB)) && (result == dirOf(LESS, asc)) == (uf("floatOf", float64, valueA) < uf("floatOf", float64, valueB)))
+//@   ensures [string-order] implies(uf("rankOf", dTypeRank, valueA, op) == RANK_STRING && uf("rankOf", dTypeRank, valueB, op) == RANK_STRING && typedKey(valueA, op) && typedKey(valueB, op), (result == EQUAL) == (uf("strOf", string, valueA) == uf("strOf", string, valueB)) && (result == dirOf(LESS, asc)) == (uf("strOf", string, valueA) < uf("strOf", string, valueB)))
 //@ end
